@@ -52,7 +52,12 @@ PREFIXES = {
     "reconnect": ["r_ok", "r_fail", "advR", "r_fail"],
     "error": ["r_ok", "r_fail", "advR", "r_fail", "advE", "r_fail"],
 }
-ALPHABETS = {"base": BASE, "reduced": REDUCED, "disc": DISC}
+# mixed access patterns within one sequence (three registers): single reads `s<reg>` and batch reads `b<regs in call
+# order>` over different subsets / orders; the hardware health is a sticky switch (`fail` / `heal`: every hardware call
+# fails / succeeds from then on) so that any read shape occurs both as a successful and as a failing / masked access
+MIXREAD = ["sA", "sB", "sC", "bABC", "bCB", "bB", "bAC"]
+MIXED = MIXREAD + ["fail", "heal", "t", "adv1", "advR"]
+ALPHABETS = {"base": BASE, "reduced": REDUCED, "disc": DISC, "mixread": MIXREAD, "mixed": MIXED}
 
 
 # --------------------------------------------------------------------------------------------------------------
@@ -78,17 +83,75 @@ def _variants(tier):
                  "backoff": "default"}, 4 if q else 5))
     out.append(({"api": "batch", "start": "conn", "alpha": "base", "prefix": "none", "cfg": "default",
                  "backoff": "default"}, 4 if q else 6))
+    out += _mixed_variants(tier)
     return out
+
+
+def _mixed_variants(tier):
+    """Mixed access patterns: a sequence is the concatenation of segments, `enum` segments are enumerated completely
+    over their alphabet, `fix` segments are fixed scripts that bring the decorator into Issue / Reconnect / through a
+    reconnect. In the structured variants every read before `fail` is a successful read of some shape, every read after
+    it is a masked (or failing-then-masked) read of some shape, so every pair (shape that last read the register, shape
+    of the masked read) within the bound occurs."""
+    q = tier == "quick"
+    g = 3 if q else 4
+    common = {"api": "mixed", "start": "conn", "backoff": "every"}
+    segs = {
+        "mixed:free": [["enum", "mixed", 4 if q else 5]],
+        "mixed:issue": [["enum", "mixread", g], ["fix", ["fail"]], ["enum", "mixread", 2]],
+        "mixed:reconnect": [["enum", "mixread", g], ["fix", ["fail", "sB", "advR", "sC"]], ["enum", "mixread", 2]],
+        "mixed:second_outage": [["enum", "mixread", 2], ["fix", ["fail", "sA", "advR", "sA", "heal", "t"]],
+                                ["enum", "mixread", 1 if q else 2], ["fix", ["fail"]], ["enum", "mixread", 2]],
+    }
+    out = []
+    for name, sg in segs.items():
+        for cfg in (("default", "small") if name == "mixed:reconnect" or not q else ("default",)):
+            v = dict(common, alpha=sg[0][1], prefix=name, cfg=cfg, segs=sg)
+            out.append((v, sum(x[2] for x in sg if x[0] == "enum")))
+    return out
+
+
+def _space(v, L):
+    """Number of sequences of a variant and the size of the alphabet its first enumerated symbols come from."""
+    if "segs" not in v:
+        return len(ALPHABETS[v["alpha"]]) ** L, len(ALPHABETS[v["alpha"]])
+    n = 1
+    for sg in v["segs"]:
+        if sg[0] == "enum":
+            n *= len(ALPHABETS[sg[1]]) ** sg[2]
+    return n, len(ALPHABETS[v["segs"][0][1]])
+
+
+def _sequences(v, L, first):
+    """All sequences of the variant whose first enumerated symbols are `first` (indices into the first alphabet)."""
+    if "segs" not in v:
+        alpha = ALPHABETS[v["alpha"]]
+        head = PREFIXES[v["prefix"]] + [alpha[i] for i in first]
+        for tail in itertools.product(alpha, repeat=L - len(first)):
+            yield head + list(tail)
+        return
+    parts = []
+    for n, sg in enumerate(v["segs"]):
+        if sg[0] == "fix":
+            parts.append([tuple(sg[1])])
+        elif n == 0:
+            a = ALPHABETS[sg[1]]
+            h = tuple(a[i] for i in first)
+            parts.append([h + t for t in itertools.product(a, repeat=sg[2] - len(first))])
+        else:
+            parts.append(list(itertools.product(ALPHABETS[sg[1]], repeat=sg[2])))
+    for combo in itertools.product(*parts):
+        yield [x for part in combo for x in part]
 
 
 def plan(tier, seed):
     # the space is enumerated completely; the seed does not select anything (kept in the spec for the record)
     jobs = []   # (weight, variant, L, first symbols)
     for v, L in _variants(tier):
-        a = ALPHABETS[v["alpha"]]
+        total, na = _space(v, L)
         k = 1 if tier == "quick" else 2
-        for first in itertools.product(range(len(a)), repeat=k):
-            jobs.append((len(a) ** (L - k), v, L, list(first)))
+        for first in itertools.product(range(na), repeat=k):
+            jobs.append((total // na ** k, v, L, list(first)))
     nshards = 16 if tier == "quick" else 48
     jobs.sort(key=lambda j: -j[0])
     shards = [{"seed": seed, "tier": tier, "jobs": [], "w": 0} for _ in range(nshards)]
@@ -241,17 +304,48 @@ def allowed_next(prev, ev, hwev, now, m, RT, ET):
     raise AssertionError(prev)
 
 
+def _count_mixed_masked(cnt, a, path, prev, rr, last_before, last_shape, latest_read, shapes_ok):
+    """Counters proving that the mixed-access workload classes were judged (one count per register of a masked read)."""
+    def c(k, n=1):
+        cnt[k] = cnt.get(k, 0) + n
+    c("mixed_masked_read_checks")
+    c("mixed_masked_read_checks_in_" + prev)
+    if len({s[0] for s in shapes_ok}) == 2:
+        c("mixed_masked_read_after_single_and_batch_reads")
+    for r in rr:
+        if r.name not in last_before:
+            continue
+        src = last_shape.get(r.name)
+        if src is None:
+            continue
+        c("mixed_masked_register_values_judged")
+        if src != a:
+            c("mixed_masked_reg_last_read_by_other_call_shape")
+        if r.name not in latest_read:
+            # the cached value is older than the most recent successful read call, which did not include this register
+            c("mixed_masked_reg_absent_from_latest_successful_read")
+        sp = "single" if src[0] == "s" else "batch"
+        if sp != path:
+            c(f"mixed_masked_{path}_read_of_reg_last_read_by_{sp}")
+        elif path == "batch" and src != a:
+            c("mixed_masked_batch_read_of_reg_last_read_by_other_batch")
+        elif path == "single":
+            c("mixed_masked_single_read_of_reg_last_read_by_single")
+
+
 def run_sequence(env, v, seq, cnt, traj_out):
     """Runs one sequence against a fresh decorator. Returns list of (mech, msg)."""
     HR, S = env["HR"], env["S"]
     HLE = env["HLE"]
     _VT.t = T0
     hw = env["HW"]()
-    A = env["Register"]("A", env["Dir"].Both)
-    B = env["Register"]("B", env["Dir"].Both)
-    hw.registers["A"] = A
-    hw.registers["B"] = B
-    regs = (A, B)
+    mixed = v["api"] == "mixed"
+    R = {n: env["Register"](n, env["Dir"].Both) for n in ("ABC" if mixed else "AB")}
+    hw.registers.update(R)
+    regs = (R["A"], R["B"])             # the fixed pair of the single / batch variants
+    last_shape: dict = {}               # mixed: register name -> read shape that last read it successfully
+    latest_read: tuple = ()             # mixed: register names of the most recent successful read call
+    shapes_ok: set = set()              # mixed: read shapes that reached the hardware successfully in this sequence
     if v["start"] == "conn":
         hw.connect()
         hw.ev.clear()
@@ -285,10 +379,20 @@ def run_sequence(env, v, seq, cnt, traj_out):
         kind = a[0]
         reg_i = i & 1
         last_before = dict(hw.last)
+        rr = path = None
+        if mixed and kind in "sb":
+            kind, path, rr = "r", ("single" if kind == "s" else "batch"), tuple(R[n] for n in a[1:])
+        elif mixed and a in ("fail", "heal"):
+            kind = "f"
+        elif kind == "r":
+            path, rr = ("batch", regs) if batch else ("single", (regs[reg_i],))
         try:
             if kind == "r":
-                hw.rfail = a == "r_fail"
-                val = d.read_batch(list(regs)) if batch else [d.read(regs[reg_i])]
+                if not mixed:
+                    hw.rfail = a == "r_fail"
+                val = d.read_batch(list(rr)) if path == "batch" else [d.read(rr[0])]
+            elif kind == "f":
+                hw.rfail = hw.wfail = hw.cfail = a == "fail"      # sticky hardware health
             elif kind == "w":
                 hw.wfail = a == "w_fail"
                 wv += 2
@@ -297,7 +401,8 @@ def run_sequence(env, v, seq, cnt, traj_out):
                 else:
                     d.write(wv, regs[reg_i])
             elif kind == "t":
-                hw.cfail = a == "t_fail"
+                if not mixed:
+                    hw.cfail = a == "t_fail"
                 if every:
                     d.tick()
                 else:
@@ -323,7 +428,7 @@ def run_sequence(env, v, seq, cnt, traj_out):
         now = _VT.t
         cur = d.state.name
         hwev = hw.ev
-        evk = "a" if kind == "a" else kind
+        evk = "a" if kind in ("a", "f") else kind
         cnt["steps"] = cnt.get("steps", 0) + 1
         # ---- obligations for *required* timeout transitions
         if prev == "Issue" and now - m["t_issue"] > RT or prev == "Reconnect" and now - m["t_rec"] > ET:
@@ -378,21 +483,29 @@ def run_sequence(env, v, seq, cnt, traj_out):
                 cnt["access_in_disconnected_raised" if raised is not None else "access_in_disconnected_silent"] = \
                     cnt.get("access_in_disconnected_raised" if raised is not None else "access_in_disconnected_silent", 0) + 1
             if kind == "r" and raised is None and prev != "Disconnected":
-                rr = regs if batch else (regs[reg_i],)
                 if "r+" in hwev:
                     cnt["fresh_read_checks"] = cnt.get("fresh_read_checks", 0) + 1
                     exp = [hw.last.get(r.name) for r in rr]
                     if list(val) != exp:
                         viol.append(("C23.read_value_not_from_hardware", f"read returned {val}, hardware returned {exp} at {where}"))
                 else:
-                    # masked: the last value the hardware successfully returned for that register (None if none yet)
+                    # masked: the last value the hardware successfully returned for that register (None if none yet),
+                    # whichever call (read / read_batch, whichever register list) obtained it
                     cnt["masked_read_checks"] = cnt.get("masked_read_checks", 0) + 1
                     exp = [last_before.get(r.name) for r in rr]
                     if None in exp:
                         cnt["masked_read_no_good_value_yet"] = cnt.get("masked_read_no_good_value_yet", 0) + 1
+                    if mixed:
+                        _count_mixed_masked(cnt, a, path, prev, rr, last_before, last_shape, latest_read, shapes_ok)
                     if list(val) != exp:
                         viol.append(("C23.masked_read_not_last_good_value",
                                      f"masked read in state {prev} returned {val}, last good values {exp} at {where}"))
+            if mixed and kind == "r" and "r+" in hwev and "r-" not in hwev:
+                # bookkeeping of the workload classes (not of the oracle: the expected values come from the fake)
+                for r in rr:
+                    last_shape[r.name] = a
+                latest_read = tuple(r.name for r in rr)
+                shapes_ok.add(a)
         elif kind == "t":
             if raised is not None:
                 cnt["tick_raised"] = cnt.get("tick_raised", 0) + 1
@@ -431,13 +544,9 @@ def run_shard(spec):
     seen_traj: set = set()
     for job in spec["jobs"]:
         v, L, first = job["v"], job["L"], job["first"]
-        alpha = ALPHABETS[v["alpha"]]
-        prefix = PREFIXES[v["prefix"]]
-        head = [alpha[i] for i in first]
         n = 0
         vkey = (v["api"], v["start"], v["cfg"], v["backoff"], v["prefix"])
-        for tail in itertools.product(alpha, repeat=L - len(first)):
-            seq = prefix + head + list(tail)
+        for seq in _sequences(v, L, first):
             tr: list = []
             viol = run_sequence(env, v, seq, cnt, tr)
             n += 1
@@ -452,9 +561,18 @@ def run_shard(spec):
             res.case(key, sample={"variant": v, "seq": seq, "trajectory": [str(x) for x in traj]} if key and len(res.samples) < 6 else None)
             for mech, msg in viol:
                 res.violation(mech, msg, {"v": v, "seq": seq})
+        if v["api"] == "mixed":
+            cnt["mixed_sequences"] = cnt.get("mixed_sequences", 0) + n
         cnt["sequences"] = cnt.get("sequences", 0) + n
-        part = (f"all {len(alpha)}^{L} sequences of length {L} (all prefixes checked) over {v['alpha']} alphabet, api={v['api']}, "
-                f"start={v['start']}, prefix={v['prefix']}, config={v['cfg']}, backoff={v['backoff']}")
+        if "segs" in v:
+            shape = " + ".join(f"all {len(ALPHABETS[x[1]])}^{x[2]} over {x[1]}" if x[0] == "enum" else "/".join(x[1])
+                               for x in v["segs"])
+            part = (f"mixed single/batch reads of 3 registers, {v['prefix']}: {shape} (all prefixes checked), "
+                    f"config={v['cfg']}, backoff={v['backoff']}")
+        else:
+            alpha = ALPHABETS[v["alpha"]]
+            part = (f"all {len(alpha)}^{L} sequences of length {L} (all prefixes checked) over {v['alpha']} alphabet, api={v['api']}, "
+                    f"start={v['start']}, prefix={v['prefix']}, config={v['cfg']}, backoff={v['backoff']}")
         if part not in res.exhaustive_parts:
             res.exhaustive_parts.append(part)
     for k, n in cnt.items():
